@@ -16,6 +16,18 @@ TRUSTED_BASE_COMMON = [
     "tools/registry.py + ./check (orchestration, Print Assumptions parsing, source grep)",
 ]
 
+TOK_RULE = ("cases = (structured char.def / unk.def / lex.csv / user lexicon / matrix.def, options, 1-8 sentences) from one "
+            "splitmix64 stream (VERIF_SEED): 1-7 categories with every invoke/group/length mix, overlapping and "
+            "multi-category ranges, 0-3 unk rows per category, 0-14 lexicon rows with homographs and nested prefixes, "
+            "1-5 ids per side, costs incl. i16 extremes and tie-heavy tables, sentences of 0-16 characters over a 16-letter "
+            "alphabet of 1-4 byte characters (incl. U+FFFF, U+10000, U+1F600, U+3000); the real dictionary is built from the "
+            "rendered files, every sentence runs on ONE reused worker with varying call patterns (double tokenize, abandoned "
+            "reset, empty sentence in between) and is compared with the model run on a fresh worker")
+TOK_TRUSTED = [
+    "modelled, not verified: crawdad (common-prefix search modelled as 'all rows whose surface is a prefix, by length then row'), Rust std char_indices/UTF-8 lengths",
+    "connection costs enter the model through the verif_conn_cost hook for every id pair (the connectors themselves are C07's subject)",
+]
+
 PROPS = {
     "C17": {
         "theorems": ["c17_first_match", "c17_fallback", "c17_rewrite_def", "c17_oracle_sound"],
@@ -33,5 +45,18 @@ PROPS = {
             "the model keeps the trie as a first-child/next-sibling tree and the matcher as structural DFS; the Rust code uses a node vector and an explicit stack (equivalence exercised by the correspondence: rewrite results and node counts)",
         ],
         "assumptions": ["rewrite.def is valid UTF-8 (otherwise BufRead::lines returns Err before any rule is read)"],
+    },
+    "C02": {
+        "theorems": ["c02_insert_invariant", "c02_optimal", "c02_reported_path"],
+        "check_targets": ["Check/C02Check.vo"],
+        "case_type": "tokcase",
+        "report_fn": "c02_report",
+        "n": {"quick": 900, "thorough": 20000},
+        "rule": TOK_RULE + "; non-trivial: a sentence whose lattice holds more candidate nodes than the reported path uses (competing segmentations)",
+        "trusted_base": TOK_TRUSTED + [
+            "the C02 oracle (forward recursion over the implementation's dumped candidates, Spec/ViterbiSpec.v) is executable Gallina evaluated by vm_compute; its own optimality is not proved, it is used only to search for failing inputs",
+        ],
+        "assumptions": ["accumulated costs within i32 (the model panics otherwise, like the dev-profile build)",
+                        "fewer than 65536 nodes per boundary (u16 back pointer)"],
     },
 }
